@@ -41,6 +41,18 @@ def scan (v : α) : List α → Nat → Option Nat
 
 def advance (V : List α) (v : α) (rid : Nat) : Option Nat := scan v (V.drop rid) rid
 
+/-- `while running_id < len(V) - 1 and V[running_id] < v: running_id += 1` (the spatial loop's scan
+never leaves the table: it stops on the last index whatever the value there) -/
+def scanB (v : α) : List α → Nat → Option Nat
+  | [], _ => none
+  | [_], i => some i
+  | w :: w' :: ws, i => if w < v then scanB v (w' :: ws) (i + 1) else some i
+
+def advanceB (V : List α) (v : α) (rid : Nat) : Option Nat := scanB v (V.drop rid) rid
+
+/-- Python's `min(a, b)`: `b` only when `b < a` (so a NaN `a` stays) -/
+def pmin (a b : α) : α := if b < a then b else a
+
 /-- Python index `running_id - 1` (index `-1` designates the last element). -/
 def bwdIdx (rid len : Nat) : Nat := if rid = 0 then len - 1 else rid - 1
 
@@ -133,17 +145,17 @@ def total (legs : List α) : α := legs.foldl (· + ·) 0
 
 /-- the `for k in range(1, N+1)` loop of `__resampleSpatial`: `n` iterations left, current `k`,
 state `running_id`. -/
-def spatialLoop (P : List (Fix α)) (S : List α) (sini ds : α) : Nat → Nat → Nat → Except Err (List (Fix α))
+def spatialLoop (P : List (Fix α)) (S : List α) (sini sfin ds : α) : Nat → Nat → Nat → Except Err (List (Fix α))
   | 0, _, _ => .ok []
   | n + 1, k, rid =>
-    let s := (k : α) * ds + sini
-    match advance S s rid with
+    let s := pmin ((k : α) * ds + sini) sfin          -- `s = min(k * ds + sini, sfin)`
+    match advanceB S s rid with
     | none => .error .index
     | some r =>
       match bracket P S s r with
       | .error e => .error e
       | .ok (pb, pf, wb, wf) =>
-        match spatialLoop P S sini ds n (k + 1) r with
+        match spatialLoop P S sini sfin ds n (k + 1) r with
         | .error e => .error e
         | .ok out =>
           .ok (⟨wb * pb.x + wf * pf.x, wb * pb.y + wf * pf.y, wb * pb.z + wf * pf.z,
@@ -157,7 +169,7 @@ def resampleSpatialLegs (trunc : α → Int) (P : List (Fix α)) (legs : List α
   | some sini, some sfin, some first =>
     if ds < 0 ∨ 0 < ds then
       let N := trunc ((sfin - sini) / ds)
-      match spatialLoop P S sini ds N.toNat 1 0 with
+      match spatialLoop P S sini sfin ds N.toNat 1 0 with
       | .error e => .error e
       | .ok out => .ok (first :: out)
     else .error .zerodiv
